@@ -1031,9 +1031,55 @@ namespace vt
       }
    };
 
+   // like S1, but only default-constructible: exercises the default-construction branch of state<> / change_state<>
+   struct S2
+   {
+      long long vsid;
+      S2()
+         : vsid( ++g().next_sid )
+      {
+         Global& G = g();
+         if( G.tracing ) {
+            Writer& w = G.tr;
+            w.s( "{\"k\":\"sc\"" );
+            w.kv( "sid", vsid );
+            w.kv( "o", -1 );
+            w.kv( "os", -1 );
+            w.s( "}\n" );
+         }
+      }
+      S2( const S2& ) = delete;
+      S2( S2&& ) = delete;
+      void operator=( const S2& ) = delete;
+      template< typename In, typename... St >
+      void success( const In& in, St&&... st )
+      {
+         Global& G = g();
+         if( G.tracing ) {
+            Writer& w = G.tr;
+            w.s( "{\"k\":\"ss\"" );
+            w.kv( "sid", vsid );
+            put_cur( w, cur_of( in ) );
+            w.kv( "os", first_sid( st... ) );
+            w.s( "}\n" );
+         }
+      }
+      ~S2()
+      {
+         Global& G = g();
+         if( G.tracing ) {
+            Writer& w = G.tr;
+            w.s( "{\"k\":\"sd\"" );
+            w.kv( "sid", vsid );
+            w.s( "}\n" );
+         }
+      }
+   };
+
    // family 5: state and action switching (C13).  A rule type carries  static constexpr int sw = k
    //   1 change_state< S1 >   2 change_states< S1 >   3 change_action< fam1 >   4 change_action_and_state< fam1, S1 >
    //   5 change_action_and_states< fam1, S1 >   6 change_control< tc_hid_uw >   7 enable_action   8 disable_action
+   //   9 change_state< S2 >   10 change_action_and_state< fam1, S2 >      (S2: default-constructible only)
    // rules without sw have the action given by nibble 5 of ak
    template< typename Rule >
    struct tc_hid_uw;
@@ -1075,6 +1121,12 @@ namespace vt
    {};
    template< typename Rule >
    struct sw_body< Rule, 8 > : pegtl::disable_action
+   {};
+   template< typename Rule >
+   struct sw_body< Rule, 9 > : pegtl::change_state< S2 >
+   {};
+   template< typename Rule >
+   struct sw_body< Rule, 10 > : pegtl::change_action_and_state< fam1, S2 >
    {};
    template< typename Rule >
    struct fam5 : sw_body< Rule, sw_of< Rule > >
